@@ -1,4 +1,5 @@
-"""C19 — Tensor<T, D>: row-major bijection, per-dimension bounds checks, constructors, IO round trip, equality."""
+"""C19 — Tensor<T, D>: row-major bijection, per-dimension bounds checks, constructors (incl. element counts beyond usize),
+iter_mut, IO round trip, equality; element types i64 / i32 / u8 / String, ranks 0..6 and 8, both build profiles."""
 import itertools
 
 ID = "C19"
@@ -27,6 +28,10 @@ THEOREMS = [
      'forall (W : N) (ds idx : list N), positive ds -> product ds <= W -> get_index_chk W ds idx = get_index ds idx'),
     ('c19_constructors_reject',
      'forall (A : Type) (ds : list N) (l : list A) (v : A), (In 0 ds -> from_vec ds l = None /\\ from_slice ds l = None /\\ new ds v = None) /\\ (N.of_nat (length l) <> product ds -> from_vec ds l = None /\\ from_slice ds l = None) /\\ (~ In 0 ds -> N.of_nat (length l) = product ds -> from_vec ds l = Some (mk ds l) /\\ from_slice ds l = Some (mk ds l) /\\ wf (mk ds l)) /\\ (~ In 0 ds -> new ds v = Some (mk ds (repeat v (N.to_nat (product ds)))) /\\ wf (mk ds (repeat v (N.to_nat (product ds)))))'),
+    ('c19_checked_volume',
+     'forall (A : Type) (W : N) (ds : list N) (l : list A) (v : A) (toks : list (tok A)), 0 < W -> (N.of_nat (length l) <= W -> from_vec_chk W ds l = from_vec ds l /\\ from_slice_chk W ds l = from_slice ds l) /\\ (product ds <= W -> new_chk W ds v = new ds v /\\ read_chk W ds toks = read ds toks) /\\ (W < product ds -> from_vec_chk W ds l = None /\\ from_slice_chk W ds l = None /\\ new_chk W ds v = None /\\ read_chk W ds toks = None)'),
+    ('c19_iter_mut',
+     'forall (A : Type) (t : tensor A) (vs : list A), wf t -> wf (iter_mut_assign t vs) /\\ dims (iter_mut_assign t vs) = dims t /\\ iter (iter_mut_assign t vs) = firstn (length (iter t)) vs ++ skipn (length vs) (iter t) /\\ (length vs = length (iter t) -> iter (iter_mut_assign t vs) = vs)'),
     ('c19_index_iter',
      'forall (A : Type) (t : tensor A) (idx : list N), wf t -> valid (dims t) idx -> index t idx = nth_error (iter t) (N.to_nat (offset (dims t) idx)) /\\ index t idx <> None'),
     ('c19_set_get',
@@ -48,26 +53,43 @@ THEOREMS = [
     ('c19_model_check_spec_check',
      'forall c : case, model_check c = spec_check c'),
 ]
-RULE = ("every shape of rank 1..4 with extents <= K (K=3 quick, 5 thorough; quick adds sampled shapes with extents <= 6) "
-        "plus rank 0: three histories per shape on Tensor<i64, D> with distinct offset-tagged elements — (from_vec) "
-        "get_index and Index at EVERY valid multi-index and at every index that is out of range in exactly one dimension "
-        "(coordinate = extent for all combinations of the other coordinates, whether or not the flattened offset stays "
-        "inside the storage; sampled larger overshoots up to usize::MAX), iter, write, write+read round trip, Debug string; (new) "
-        "IndexMut at every index in shuffled order interleaved with out-of-range writes, then iter / Index / write; "
-        "(from_slice) == against equal, one-element-different, permuted-shape/equal-data and reshaped tensors; "
-        "constructor rejections (a zero extent at each position with matching and non-matching length, length +-1), "
-        "Tensor::read with other shapes of the same size, too few tokens, extra whitespace, zero extents. "
+RULE = ("every shape of rank 1..4 with extents <= K (K=3 quick, 5 thorough; quick adds sampled shapes with extents <= 6), "
+        "rank 0, and ranks 5, 6, 8 (extents <= 2, a few 3; sampled in quick, all 2^5 + 2^6 in thorough): three histories per "
+        "shape on Tensor<i64, D> with distinct offset-tagged elements, the read block (dims, iter, get_index and Index at "
+        "EVERY valid multi-index, write, write+read round trip, Debug string) running on tensors of all three constructors - "
+        "(from_vec) plus get_index AND Index at every index that is out of range in exactly one dimension (coordinate = "
+        "extent for all combinations of the other coordinates, whether or not the flattened offset stays inside the storage; "
+        "sampled larger overshoots: 2^32 + valid coordinate, 2^63 + valid, up to usize::MAX) and at sampled indices out of "
+        "range in two or more dimensions (all coordinates = extent; every pair of dimensions with the others 0 / random); "
+        "(new) IndexMut at every index in shuffled order interleaved with writes at ALL those out-of-range indices; "
+        "(from_slice) == and != against equal, one-element-different, permuted-shape/equal-data, reshaped, and constructible "
+        "partners of another element count, then iter_mut() assigning as many / fewer / more values than elements; "
+        "constructor rejections (a zero extent at each position, two and all extents zero, length n-1, n+1, 2n, 0), "
+        "Tensor::read with other shapes of the same size, too few tokens, extra whitespace, zero extents; "
+        "element count beyond usize (both profiles): shapes of rank 2..5 whose product of extents is >= 2^64 and wraps to 0, to "
+        "a small number or to a large one - from_vec / from_slice with data of the wrapped length (and 0, 1, wrapped+-1), new "
+        "and Tensor::read when the wrapped count is small, == partners of such a shape: all rejected; "
+        "the same histories on Tensor<i32>, Tensor<u8> (values mod 256) and Tensor<String> for a spread sample of shapes. "
         "non-trivial = rank >= 2 with at least one indexed access, or a constructor rejection")
-TRUSTED = ["executor harness/crates/c19 (Tensor<i64, D> for D = 0..4: constructors, get_index, Index/IndexMut, iter, dims, "
-           "Writer over a Vec<u8>, Reader + Tensor::read, ==, format!(\"{:?}\"); vh::guarded per operation)",
+TRUSTED = ["executor harness/crates/c19 (Tensor<E, D> for E = i64, i32, u8, String and D = 0..6, 8: constructors, get_index, "
+           "Index/IndexMut, iter, iter_mut, dims, Writer over a Vec<u8>, Reader + Tensor::read, ==, !=, format!(\"{:?}\"); "
+           "vh::guarded per operation; its internal consistency checks, whose failure is printed as an observation no model "
+           "predicts: clone / clone_from target / Tensor::read result / the tensor itself compared observer by observer with "
+           "from_vec(dims, iter); independence of copies; count/nth/last/size_hint of iter(); one Writer carrying a scalar and "
+           "the tensor twice; one Reader delivering the tensor twice and a scalar)",
            "checks/c19.py (case generator, lexer of the written bytes into element / ' ' / '\\n' tokens and of the Debug string into element / '[' / ']' / ',' "
            "tokens, Coq term printer)",
-           "extra(): python row-major oracle for the larger-shape search (a search, not part of the proof)"]
-ASSUMPTIONS = ["extents, indices and offsets are unbounded N in the model (no usize overflow: shapes are small; an index "
-               "coordinate may be as large as usize::MAX because the bound assert precedes the multiplication)",
+           "extra(): python row-major oracle for the larger-shape and boundary search on the executors of both profiles "
+           "(extents 255..65537, texts beyond the 64 KiB Reader/Writer buffers; a search, not part of the proof)"]
+ASSUMPTIONS = ["extents, indices and offsets are unbounded N in the model; usize enters in two places: the element count of "
+               "the constructors is the checked fold of the code (usize::MAX = 2^64 - 1, c19_checked_volume), and an index "
+               "coordinate may be as large as usize::MAX because the bound assert precedes the multiplication "
+               "(c19_get_index_no_overflow)",
                "elements are abstract tokens in the written text: decimal rendering/parsing of integers is C08/C09's subject; "
                "a token is a maximal run of non-whitespace bytes",
                "debug profile: reading past the end of input panics through the reader's debug_assert",
+               "allocation failure is not modelled: `new` / `read` are only run on shapes whose element count is small or "
+               "beyond usize (rejected before any allocation)",
                "Vec/array layout and ownership are modelled as functional lists"]
 SHARD = 300
 SEARCH_MAX = 4000
@@ -83,7 +105,8 @@ def for_profile(c, profile):
         need = 1
         for d in o[1]:
             need *= d
-        return len(o[2].split()) < need
+        # a shape whose element count does not fit into usize panics in both profiles before anything is read
+        return need <= BIG and len(o[2].split()) < need
     return dict(c, ops=[o for o in c["ops"] if not (o[0] == "rd" and short(o))])
 
 
@@ -94,7 +117,8 @@ def enc_text(s):
 
 def harness_line(c):
     dims = c["dims"]
-    t = [str(len(dims))] + [str(d) for d in dims]
+    ty = c.get("ty", "i64")
+    t = [str(len(dims)) + ("" if ty == "i64" else ":" + ty)] + [str(d) for d in dims]
     t.append(c["ctor"])
     if c["ctor"] == "N":
         t.append(str(c.get("newv", 0)))
@@ -111,6 +135,8 @@ def harness_line(c):
             t += [str(i) for i in o[1]] + [enc_text(o[2])]
         elif k == "eq":
             t += [str(i) for i in o[1]] + [str(len(o[2]))] + [str(x) for x in o[2]]
+        elif k == "im":
+            t += [str(len(o[1]))] + [str(x) for x in o[1]]
     return " ".join(t)
 
 
@@ -137,6 +163,9 @@ def parse_obs(c, obs):
             at += D
         elif k == "it":
             res.append(take_list())
+        elif k == "im":
+            res.append(int(t[at]))
+            at += 1
         elif t[at] == "P":
             res.append(None)
             at += 1
@@ -241,6 +270,8 @@ def coq_term(c, obs, profile):
                 ops.append("OIter %s" % zl(r))
             elif k == "dm":
                 ops.append("ODims %s" % nl(r))
+            elif k == "im":
+                ops.append("OIterMut %s %d%%N" % (zl(o[1]), r))
             elif k == "w":
                 ops.append("OWrite %s" % ("None" if r is None else "(Some %s)" % lex(r)))
             elif k == "db":
@@ -269,7 +300,7 @@ def prod(ds):
 
 
 def constructible(ds, n):
-    return all(d > 0 for d in ds) and prod(ds) == n
+    return all(d > 0 for d in ds) and prod(ds) <= BIG and prod(ds) == n
 
 
 def nontrivial(c, obs):
@@ -282,7 +313,13 @@ def classify(c, obs):
     kinds = sorted({o[0] for o in c["ops"]})
     main = "eq" if "eq" in kinds else "read" if "rd" in kinds else "index_mut" if "s" in kinds else \
         "index" if ("g" in kinds or "gi" in kinds) else "other"
-    return "rank%d/%s/%s/%s" % (len(c["dims"]), c["ctor"], "panic" if obs.split()[0] == "P" else "ok", main)
+    if "im" in kinds:
+        main += "+iter_mut"
+    if prod(c["dims"]) > BIG or any(o[0] in ("rd", "eq") and prod(o[1]) > BIG for o in c["ops"]):
+        main += "+count-overflow"
+    ty = c.get("ty", "i64")
+    return "rank%d/%s%s/%s/%s" % (len(c["dims"]), c["ctor"], "" if ty == "i64" else ":" + ty,
+                                  "panic" if obs.split()[0] == "P" else "ok", main)
 
 
 # ----------------------------------------------------------------------------- generator
@@ -304,9 +341,42 @@ def oor_idx(rng, dims):
             idx = list(combo)
             idx[j] = dims[j]
             if rng.chance(1, 6):
-                idx[j] = rng.choice([dims[j] + 1, 2 * dims[j], dims[j] * 7 + 3, BIG, BIG - 1, 1 << 32])
+                # (1 << 32) + v with v a valid coordinate: a coordinate narrowed to 32 bits would be accepted
+                idx[j] = rng.choice([dims[j] + 1, 2 * dims[j], dims[j] * 7 + 3, BIG, BIG - 1, 1 << 32,
+                                     (1 << 32) + rng.below(dims[j]), (1 << 63) + rng.below(dims[j])])
             out.append(idx)
     return out
+
+
+def oor_multi(rng, dims):
+    """indices out of range in two or more dimensions at once: every coordinate = its extent; for every pair of
+    dimensions both coordinates = extent with the others 0 (smallest flattened offset, inside the storage whenever
+    that is possible) and with the others random; one random subset of size >= 2"""
+    D = len(dims)
+    if D < 2:
+        return []
+    out = [list(dims)]
+    for j in range(D):
+        for k in range(j + 1, D):
+            a = [0] * D
+            a[j], a[k] = dims[j], dims[k]
+            out.append(a)
+            b = [rng.below(d) for d in dims]
+            b[j], b[k] = dims[j] + rng.below(2), dims[k] + rng.choice([0, 0, 1, BIG - dims[k]])
+            out.append(b)
+    if D >= 3:
+        c = [rng.below(d) for d in dims]
+        for j in range(D):
+            if rng.chance(2, 3):
+                c[j] = dims[j]
+        if sum(1 for x, d in zip(c, dims) if x >= d) >= 2:
+            out.append(c)
+    seen, res = set(), []
+    for x in out:
+        if tuple(x) not in seen:
+            seen.add(tuple(x))
+            res.append(x)
+    return res
 
 
 def render(dims, data):
@@ -327,42 +397,53 @@ def render(dims, data):
     return "".join(out)
 
 
+def offset_of(dims, idx):
+    return sum(i * prod(dims[j + 1:]) for j, i in enumerate(idx))
+
+
 def shape_cases(rng, dims):
+    """three histories on one shape; every out-of-range index (one dimension: exhaustive; several: sampled) is given to
+    get_index, Index AND IndexMut; the read block (dm it gi g w rt db) runs on tensors of all three constructors"""
     D, n = len(dims), prod(dims)
     salt = rng.range(1, 50) * 100
     data = [tag(k, salt) for k in range(n)]
     valid = all_idx(dims)
-    oor = oor_idx(rng, dims)
+    oor = oor_idx(rng, dims) + oor_multi(rng, dims)
     cases = []
     # 1. from_vec: read everything
     ops = [["dm"], ["it"]]
     for idx in valid:
         ops.append(["gi", idx])
         ops.append(["g", idx])
-    for q, idx in enumerate(oor):
-        ops.append(["g" if q % 2 == 0 else "gi", idx])
+    for idx in oor:
+        ops.append(["g", idx])
+        ops.append(["gi", idx])
     ops += [["w"], ["rt"], ["db"]]
     cases.append({"dims": dims, "ctor": "V", "data": data, "ops": ops})
-    # 2. new + IndexMut everywhere (shuffled), out-of-range writes in between
+    # 2. new + IndexMut everywhere (shuffled), out-of-range writes in between, then the read block
     order = list(valid)
     rng.shuffle(order)
-    ops = []
+    ops = [["dm"]]
     o2 = list(oor)
     rng.shuffle(o2)
     fill = rng.range(-9, 9)
+    per = max(1, -(-len(o2) // max(1, len(order))))       # all out-of-range writes are spent
     for q, idx in enumerate(order):
-        off = sum(i * prod(dims[j + 1:]) for j, i in enumerate(idx))
-        ops.append(["s", idx, tag(off, salt + 7)])
-        if o2 and q % 2 == 0:
-            ops.append(["s", o2.pop(), 777777])
+        ops.append(["s", idx, tag(offset_of(dims, idx), salt + 7)])
+        for _ in range(per):
+            if o2:
+                ops.append(["s", o2.pop(), 777777])
         if q == len(order) // 2:
             ops.append(["it"])
+    for idx in o2:
+        ops.append(["s", idx, 777777])
     ops.append(["it"])
     for idx in valid:
         ops.append(["g", idx])
+        ops.append(["gi", idx])
     ops += [["w"], ["rt"], ["db"]]
     cases.append({"dims": dims, "ctor": "N", "newv": fill, "data": [], "ops": ops})
-    # 3. from_slice: equality
+    # 3. from_slice: equality, then iter_mut, then the read block
     ops = [["eq", dims, list(data)]]
     if n > 0:
         k = rng.below(n)
@@ -379,17 +460,37 @@ def shape_cases(rng, dims):
         ops.append(["eq", list(reversed(flat)), list(data)])
         ops.append(["eq", dims, data[:-1]])
         ops.append(["eq", dims, data + [5]])
+        # a constructible partner with ANOTHER element count whose data starts with / is a prefix of this tensor's data
+        j = rng.below(D)
+        grown = list(dims)
+        grown[j] += 1
+        ops.append(["eq", grown, (data + data)[:prod(grown)]])
+        if dims[j] > 1:
+            cut = list(dims)
+            cut[j] -= 1
+            ops.append(["eq", cut, data[:prod(cut)]])
     if valid:
         idx = rng.choice(valid)
         ops.append(["s", idx, 424242])
         ops.append(["eq", dims, list(data)])
-        off = sum(i * prod(dims[j + 1:]) for j, i in enumerate(idx))
+        off = offset_of(dims, idx)
         d3 = list(data)
         d3[off] = 424242
         ops.append(["eq", dims, d3])
         if D >= 2:
             ops.append(["eq", list(reversed(dims)), d3])
     ops.append(["it"])
+    # iter_mut: as many values as elements, then fewer, then more
+    vs = [tag(k, salt + 31) for k in range(n)]
+    ops += [["im", vs], ["it"], ["eq", dims, vs]]
+    for idx in valid:
+        ops.append(["g", idx])
+    ops += [["im", [5] * (n // 2)], ["it"], ["im", [6 + k for k in range(n + 2)]], ["dm"], ["it"]]
+    for q, idx in enumerate(valid):
+        ops.append(["gi" if q % 2 else "g", idx])
+    for q, idx in enumerate(oor):
+        ops.append(["g" if q % 2 else "gi", idx])
+    ops += [["w"], ["rt"], ["db"]]
     cases.append({"dims": dims, "ctor": "S", "data": data, "ops": ops})
     return cases
 
@@ -402,6 +503,9 @@ def reject_cases(rng, dims):
     for ctor in ("V", "S"):
         cases.append({"dims": dims, "ctor": ctor, "data": data[:-1], "ops": [["it"]]})
         cases.append({"dims": dims, "ctor": ctor, "data": data + [9], "ops": [["it"]]})
+        cases.append({"dims": dims, "ctor": ctor, "data": data + data, "ops": [["it"]]})
+        if n > 1:
+            cases.append({"dims": dims, "ctor": ctor, "data": [], "ops": [["it"]]})
     for j in range(D):
         z = list(dims)
         z[j] = 0
@@ -411,6 +515,15 @@ def reject_cases(rng, dims):
         cases.append({"dims": z, "ctor": "N", "newv": 4, "data": [], "ops": [["it"], ["w"]]})
         cases.append({"dims": dims, "ctor": "V", "data": data,
                       "ops": [["rd", z, render(dims, data)], ["eq", z, []], ["eq", z, data]]})
+    if D >= 2:
+        # two zero extents at once, all extents zero
+        j = rng.below(D - 1)
+        z2 = list(dims)
+        z2[j] = z2[j + 1] = 0
+        for z in (z2, [0] * D):
+            for ctor in ("V", "S", "N"):
+                cases.append({"dims": z, "ctor": ctor, "newv": 1, "data": [], "ops": [["it"]]})
+            cases.append({"dims": dims, "ctor": "S", "data": data, "ops": [["rd", z, ""], ["eq", z, []]]})
     return cases
 
 
@@ -435,11 +548,127 @@ def read_cases(rng, dims):
     return [{"dims": dims, "ctor": "V", "data": data, "ops": ops}]
 
 
+# ----------------------------------------------------------------------------- element count beyond usize
+def inv64(b):
+    return pow(b, -1, 1 << 64)
+
+
+def overflow_shapes(rng, tier):
+    """shapes with positive extents whose element count does not fit into usize, with the value the wrapped
+    (mod 2^64) product would have: 0, a small number (a data vector of that length exists), or large"""
+    M = 1 << 64
+    out = [[1 << 32, 1 << 32], [(1 << 63) + 1, 2], [2, (1 << 63) + 1], [1 << 63, 2], [2, 1 << 63],
+           [1 << 32, 1 << 32, 1], [1, 1 << 32, 1 << 32], [1 << 63, 2, 1], [1 << 16, 1 << 16, 1 << 16, 1 << 16],
+           [1 << 22, 1 << 21, 1 << 21], [BIG, 2], [BIG, BIG], [3, BIG], [1 << 32, (1 << 32) + 1], [1 << 21] * 4,
+           [(1 << 62) + 1, 4], [2, 2, (1 << 62) + 1], [2, (1 << 62) + 1, 2, 1]]
+    # a·b ≡ r (mod 2^64) with b odd: a = r·b^-1; the true product is far beyond 2^64
+    rounds = 6 if tier == "quick" else 60
+    for _ in range(rounds):
+        r = rng.range(1, 12)
+        b = rng.choice([3, 5, 7, 9, 11, 255, 257, 65537, (1 << 32) + 1, (1 << 32) - 1])
+        a = (r * inv64(b)) % M
+        if a * b >= M:
+            s = rng.choice([[a, b], [b, a], [1, a, b], [a, 1, b], [a, b, 1, 1]])
+            out.append(s)
+        # three factors: 2^k · odd · 2^(64-k+e) wraps to 0
+        k = rng.range(1, 40)
+        out.append(rng.choice([[1 << k, rng.range(1, 9) * 2 + 1, 1 << (64 - k)], [1 << (64 - k), 1 << k, rng.range(1, 5)]]))
+    res = []
+    for sh in out:
+        assert all(0 < d <= BIG for d in sh) and prod(sh) > BIG, sh
+        if len(sh) in (2, 3, 4, 5) and sh not in res:
+            res.append(sh)
+    return res
+
+
+def overflow_cases(rng, tier):
+    """from_vec / from_slice with data whose length is the wrapped count (and 0, 1, wrapped +- 1); `new` and
+    Tensor::read only when the wrapped count is small (a build that wraps would allocate that many elements, never
+    more); == against such a partner.  Expected everywhere: rejected.  No operation follows the constructor."""
+    M = 1 << 64
+    cases = []
+    for sh in overflow_shapes(rng, tier):
+        w = prod(sh) % M
+        lens = {0, 1}
+        if w <= 40:
+            lens |= {w, w + 1, max(0, w - 1)}
+        for ln in sorted(lens):
+            data = [7 + k for k in range(ln)]
+            for ctor in ("V", "S"):
+                cases.append({"dims": sh, "ctor": ctor, "data": data, "ops": []})
+        if w <= 40:
+            cases.append({"dims": sh, "ctor": "N", "newv": 3, "data": [], "ops": []})
+            small = [1] * (len(sh) - 1) + [max(1, w)]
+            d0 = [7 + k for k in range(max(1, w))]
+            text = " ".join(str(x) for x in d0[:w])
+            cases.append({"dims": small, "ctor": "V", "data": d0,
+                          "ops": [["rd", sh, text], ["rd", sh, ""], ["rd", sh, text + " 1 2 3"],
+                                  ["eq", sh, d0[:w]], ["eq", sh, []], ["eq", sh, d0], ["it"]]})
+        else:
+            cases.append({"dims": [1] * len(sh), "ctor": "S", "data": [4], "ops": [["eq", sh, []], ["eq", sh, [4]], ["it"]]})
+    return cases
+
+
+# ----------------------------------------------------------------------------- other element types
+def remap_case(c, ty):
+    """the same history on Tensor<ty, D>: values folded into the type's range (u8: mod 256), in the data, the written
+    values, the comparison partners and the integer tokens of the texts"""
+    if ty == "u8":
+        f = lambda v: v % 256
+    else:
+        f = lambda v: v
+    import re
+    ops = []
+    for o in c["ops"]:
+        k = o[0]
+        if k == "s":
+            ops.append([k, o[1], f(o[2])])
+        elif k == "eq":
+            ops.append([k, o[1], [f(x) for x in o[2]]])
+        elif k == "im":
+            ops.append([k, [f(x) for x in o[1]]])
+        elif k == "rd":
+            ops.append([k, o[1], re.sub(r"-?\d+", lambda m: str(f(int(m.group(0)))), o[2])])
+        else:
+            ops.append(o)
+    d = dict(c, ty=ty, data=[f(x) for x in c["data"]], ops=ops)
+    if "newv" in c:
+        d["newv"] = f(c["newv"])
+    return d
+
+
 def shapes(maxrank, ext):
     out = []
     for D in range(1, maxrank + 1):
         out += [list(s) for s in itertools.product(range(1, ext + 1), repeat=D)]
     return out
+
+
+def high_rank_shapes(rng, tier):
+    """ranks 5, 6 and 8 (the executor instantiates them; the model is rank-generic)"""
+    r5 = [list(s) for s in itertools.product((1, 2), repeat=5)]
+    r6 = [list(s) for s in itertools.product((1, 2), repeat=6)]
+    rng.shuffle(r5)
+    rng.shuffle(r6)
+    def r8():
+        while True:
+            s = [rng.choice([1, 1, 2]) for _ in range(8)]
+            if 2 <= prod(s) <= 32:
+                return s
+    if tier == "quick":
+        out = [[2] * 5, [2] * 6] + r5[:3] + r6[:2] + [r8(), [1, 3, 1, 2, 2], [2, 1, 2, 1, 1, 3]]
+    else:
+        out = r5 + r6 + [r8() for _ in range(10)]
+        for _ in range(16):
+            D = rng.choice([5, 5, 6])
+            s = [rng.range(1, 3) for _ in range(D)]
+            if prod(s) <= 200:
+                out.append(s)
+    res = []
+    for s in out:
+        if s not in res:
+            res.append(s)
+    return res
 
 
 def generate(rng, tier):
@@ -449,10 +678,15 @@ def generate(rng, tier):
         cases.append({"dims": [], "ctor": "V", "data": [x],
                       "ops": [["dm"], ["gi", []], ["g", []], ["it"], ["w"], ["rt"], ["db"], ["s", [], x + 1], ["g", []], ["w"], ["rt"], ["db"],
                               ["eq", [], [x + 1]], ["eq", [], [x]], ["eq", [], []], ["rd", [], "5"], ["rd", [], ""],
-                              ["rd", [], "/_-12_4"]]})
-    cases.append({"dims": [], "ctor": "N", "newv": 11, "data": [], "ops": [["it"], ["g", []], ["w"], ["rt"]]})
+                              ["rd", [], "/_-12_4"], ["im", [41]], ["it"], ["im", []], ["im", [42, 43]], ["g", []]]})
+    cases.append({"dims": [], "ctor": "N", "newv": 11, "data": [], "ops": [["dm"], ["it"], ["g", []], ["gi", []], ["w"], ["rt"], ["db"]]})
+    cases.append({"dims": [], "ctor": "S", "data": [8], "ops": [["dm"], ["it"], ["g", []], ["gi", []], ["w"], ["rt"], ["db"]]})
     cases.append({"dims": [], "ctor": "S", "data": [], "ops": [["it"]]})
     cases.append({"dims": [], "ctor": "V", "data": [1, 2], "ops": [["it"]]})
+    for ty in ("i32", "u8", "str"):
+        cases.append({"dims": [], "ty": ty, "ctor": "V", "data": [9],
+                      "ops": [["dm"], ["gi", []], ["g", []], ["it"], ["w"], ["rt"], ["db"], ["s", [], 10], ["eq", [], [10]],
+                              ["rd", [], "5"], ["im", [41]], ["it"]]})
     ext = 3 if tier == "quick" else 5
     base = shapes(4, ext)
     for dims in base:
@@ -460,7 +694,7 @@ def generate(rng, tier):
     if tier == "quick":
         seen = {tuple(s) for s in base}
         extra = []
-        while len(extra) < 24:
+        while len(extra) < 18:
             D = rng.range(1, 4)
             s = [rng.range(1, 6 if D < 4 else 5) for _ in range(D)]
             if tuple(s) not in seen and prod(s) <= 150:
@@ -468,12 +702,30 @@ def generate(rng, tier):
                 extra.append(s)
         for dims in extra:
             cases += shape_cases(rng, dims)
-        rej = [s for s in base if rng.chance(1, 3)] + extra[:8]
+        rej = [s for s in base if rng.chance(1, 5)] + extra[:6]
     else:
+        extra = []
         rej = [s for s in base if max(s) <= 3 or rng.chance(1, 4)]
     for dims in rej:
         cases += reject_cases(rng, dims)
         cases += read_cases(rng, dims)
+    # ranks above 4
+    high = high_rank_shapes(rng, tier)
+    for dims in high:
+        cases += shape_cases(rng, dims)
+    for dims in high[:4 if tier == "quick" else 24]:
+        cases += reject_cases(rng, dims)
+        cases += read_cases(rng, dims)
+    # element count beyond usize
+    cases += overflow_cases(rng, tier)
+    # other element types: the three histories and the reads of a spread sample of shapes
+    pool = [s for s in base + extra if len(s) >= 2 or max(s) >= 3] + high[:2]
+    rng.shuffle(pool)
+    per_type = 5 if tier == "quick" else 60
+    for q, ty in enumerate(("i32", "u8", "str")):
+        for dims in pool[q * per_type:(q + 1) * per_type]:
+            for c in shape_cases(rng, dims) + read_cases(rng, dims) + reject_cases(rng, dims)[:4]:
+                cases.append(remap_case(c, ty))
     return cases
 
 
@@ -486,7 +738,7 @@ def shrink(c):
         out.append(dict(c, ops=ops[: n // 2]))
         out.append(dict(c, ops=ops[n // 2:]))
         # keep the writes (they define the state), drop reads
-        sets = [o for o in ops if o[0] == "s"]
+        sets = [o for o in ops if o[0] in ("s", "im")]
         if sets and len(sets) < n:
             out.append(dict(c, ops=sets + [ops[-1]]))
         step = max(1, n // 30)
@@ -498,8 +750,16 @@ def shrink(c):
 
 
 # ----------------------------------------------------------------------------- implementation-only search
+def render_debug(dims, data):
+    """independent python rendering of the Debug text (spaces removed)"""
+    if not dims:
+        return str(data[0])
+    step = prod(dims[1:])
+    return "[" + ",".join(render_debug(dims[1:], data[k * step:(k + 1) * step]) for k in range(dims[0])) + "]"
+
+
 def py_expect(c):
-    """python oracle (row-major arithmetic) for a from_vec history of gi / g / it / w / rt ops on a valid tensor"""
+    """python oracle (row-major arithmetic) for a from_vec history of dm / gi / g / it / w / rt / db ops on a valid tensor"""
     dims, l = c["dims"], list(c["data"])
     exp = []
     for o in c["ops"]:
@@ -507,14 +767,18 @@ def py_expect(c):
         if k in ("gi", "g"):
             idx = o[1]
             if all(i < d for i, d in zip(idx, dims)):
-                off = sum(i * prod(dims[j + 1:]) for j, i in enumerate(idx))
+                off = offset_of(dims, idx)
                 exp.append(off if k == "gi" else l[off])
             else:
                 exp.append(None)
         elif k == "it":
             exp.append(l)
+        elif k == "dm":
+            exp.append(list(dims))
         elif k == "w":
             exp.append(enc_text(render(dims, l)))
+        elif k == "db":
+            exp.append(render_debug(dims, l))
         elif k == "rt":
             exp.append(("1", l))
         else:
@@ -522,12 +786,52 @@ def py_expect(c):
     return exp
 
 
+def boundary_cases(rng, tier):
+    """long and wide tensors: extents around 2^8 and 2^16, texts longer than the 64 KiB buffers of Reader and Writer
+    (in release builds the Writer is not flushed before the end, so the buffer boundary falls inside the tensor);
+    coordinates around 255/256 and the extent, overshoots e, e+1, 2^32 + valid, usize::MAX in every dimension"""
+    E = [16, 255, 256, 257, 1000, 65536] if tier == "quick" else [16, 255, 256, 257, 1000, 4096, 65535, 65536, 65537]
+    shp = []
+    for e in E:
+        shp += [[e], [2, e], [e, 2]]
+        if e <= 1000 or tier != "quick":
+            shp.append([3, e, 2])
+    shp.append([300, 300])
+    if tier != "quick":
+        shp += [[1000000], [100, 100, 100], [7, 11, 13, 17, 2]]
+    cases = []
+    for q, dims in enumerate(shp):
+        n = prod(dims)
+        ty = "i64"
+        data = [tag(k, 100000) for k in range(n)]
+        if dims in ([2, 65536], [256, 2], [3, 257, 2]):
+            ty, data = "u8", [(k * 7 + k // 256) % 256 for k in range(n)]
+        elif dims in ([257], [2, 1000]):
+            ty = "str"
+        elif dims in ([65536], [255, 2]):
+            ty = "i32"
+        ops = [["it"]] if n > 8192 else [["dm"], ["it"]]
+        for j, d in enumerate(dims):
+            good = sorted({x for x in (0, 1, 254, 255, 256, 257, d // 2, d - 2, d - 1) if 0 <= x < d})
+            bad = [d, d + 1, 1 << 32, (1 << 32) + rng.below(d), (1 << 32) + d - 1, (1 << 63) + rng.below(d), BIG - 1, BIG]
+            for x in good + bad:
+                idx = [rng.choice([0, e - 1, rng.below(e)]) for e in dims]
+                idx[j] = x
+                ops += [["gi", idx], ["g", idx]]
+        ops += [["w"], ["rt"]]
+        if n <= 100000:
+            ops.append(["db"])
+        cases.append({"dims": dims, "ty": ty, "ctor": "V", "data": data, "ops": ops})
+    return cases
+
+
 def extra(ctx, known):
-    """larger shapes than Coq batches can afford (extents up to 12, up to 20 000 elements): every valid index and every
-    single-dimension overflow, checked here against row-major arithmetic.  A search, never counted as proof."""
+    """larger shapes than Coq batches can afford, on the executors of BOTH profiles, checked here against row-major
+    arithmetic: (a) random shapes with extents up to 12 (every valid index and every single-dimension overflow);
+    (b) the boundary family of `boundary_cases`.  A search, never counted as proof."""
     import _driver
     rng = _driver.Rng(ctx.seed + 19).fork("C19-big")
-    nshapes, cap = (12, 4000) if ctx.tier == "quick" else (120, 20000)
+    nshapes, cap = (10, 4000) if ctx.tier == "quick" else (120, 20000)
     shapes_, seen = [], set()
     while len(shapes_) < nshapes:
         D = rng.range(1, 4)
@@ -543,30 +847,40 @@ def extra(ctx, known):
         for idx in all_idx(dims):
             ops.append(["gi", idx])
             ops.append(["g", idx])
-        for q, idx in enumerate(oor_idx(rng, dims)):
+        for q, idx in enumerate(oor_idx(rng, dims) + oor_multi(rng, dims)):
             ops.append(["g" if q % 2 else "gi", idx])
-        ops += [["w"], ["rt"]]
+        ops += [["w"], ["rt"], ["db"]]
         cases.append({"dims": dims, "ctor": "V", "data": data, "ops": ops})
-    outs = _driver.run_impl(ctx.bins["debug"], [harness_line(c) for c in cases])
-    viol, nops = [], 0
-    for c, o in zip(cases, outs):
-        ok, res = parse_obs(c, o)
-        exp = py_expect(c)
-        nops += len(exp)
-        bad = None if ok else "constructor panicked"
-        if ok:
-            for op, r, e in zip(c["ops"], res, exp):
-                if r != e:
-                    bad = "op %s: implementation %s, row-major arithmetic %s" % (op[:2], str(r)[:80], str(e)[:80])
-                    small = {"dims": c["dims"], "ctor": "V", "data": c["data"], "ops": [op]}
-                    break
-        if bad:
-            viol.append({"name": "big-%s" % "x".join(map(str, c["dims"])), "kind": "counterexample",
-                         "payload": {"what": "implementation-only search on a larger shape: " + bad,
-                                     "case": small if ok else dict(c, ops=[])}})
+    nrandom = len(cases)
+    cases += boundary_cases(rng, ctx.tier)
+    viol, nops, longest = [], 0, 0
+    lines = [harness_line(c) for c in cases]
+    exps = [py_expect(c) for c in cases]
+    for profile in PROFILES:
+        if viol:
             break
-    return {"coverage": {"big_shapes": len(cases), "big_shape_operations": nops,
-                         "big_shapes_max_elements": max(prod(c["dims"]) for c in cases)},
+        outs = _driver.run_impl(ctx.bins[profile], lines)
+        for c, o, exp in zip(cases, outs, exps):
+            ok, res = parse_obs(c, o)
+            nops += len(exp)
+            bad = None if ok else "constructor panicked"
+            if ok:
+                for op, r, e in zip(c["ops"], res, exp):
+                    if op[0] == "w" and r is not None:
+                        longest = max(longest, len(r))
+                    if r != e:
+                        bad = "op %s: implementation %s, row-major arithmetic %s" % (op[:2], str(r)[:80], str(e)[:80])
+                        small = dict(c, ops=[op])
+                        break
+            if bad:
+                viol.append({"name": "big-%s-%s" % ("x".join(map(str, c["dims"])), profile), "kind": "counterexample",
+                             "payload": {"what": "implementation-only search on a larger shape (%s build, Tensor<%s, %d>): %s"
+                                                 % (profile, c.get("ty", "i64"), len(c["dims"]), bad),
+                                         "case": small if ok else dict(c, ops=[])}})
+                break
+    return {"coverage": {"big_shapes": nrandom, "boundary_shapes": len(cases) - nrandom, "big_shape_operations": nops,
+                         "big_shapes_max_elements": max(prod(c["dims"]) for c in cases),
+                         "longest_written_text_bytes": longest, "profiles": list(PROFILES)},
             "violations": viol}
 
 
@@ -575,16 +889,20 @@ MANIFEST = {
             "length, including rank 0): get_index equals the row-major formula on valid multi-indices and is a bijection onto "
             "[0, prod dims); any coordinate >= its extent panics in get_index/Index/IndexMut whatever the flattened offset; no "
             "usize overflow inside get_index for constructed tensors; constructors reject zero extents and length mismatch and "
-            "otherwise keep shape and data; Index agrees with iter(); IndexMut writes exactly one element; the Writable (and "
-            "Debug) odometer terminates and emits the elements in storage order with ' ' / D-pos-1 newlines (brackets) as "
-            "separators; read(dims, write(t)) = t; == holds iff shape and data agree; model_check = spec_check for every case. "
-            "The model is tied to the code on every "
-            "run: the executor instantiates Tensor<i64, D> for D = 0..4 from /repo and runs constructor / get_index / Index / "
-            "IndexMut / iter / write / read / == histories over all small shapes (every valid index and every index out of "
-            "range in exactly one dimension); Coq proves model = implementation and implementation |= row-major "
-            "specification on every case.",
-    "level_note": "Trusted: Coq kernel + vm_compute; the Rust executor, the Python case printer and lexer; usize modelled as "
-                  "unbounded N; element rendering/parsing abstracted to tokens (C08/C09); theorems are about the model, the "
-                  "correspondence is exhaustive only for the listed small shapes.",
+            "otherwise keep shape and data; the checked element count of the code (checked_mul fold) equals the unbounded "
+            "product whenever that is representable and rejects every shape whose product exceeds usize::MAX, whatever the "
+            "data; Index agrees with iter(); IndexMut writes exactly one element; iter_mut visits the storage in order; the "
+            "Writable (and Debug) odometer terminates and emits the elements in storage order with ' ' / D-pos-1 newlines "
+            "(brackets) as separators; read(dims, write(t)) = t; == holds iff shape and data agree; model_check = spec_check "
+            "for every case. The model is tied to the code on every run, in the debug and the release profile: the executor "
+            "instantiates Tensor<E, D> for E = i64, i32, u8, String and D = 0..6, 8 from /repo and runs constructor / "
+            "get_index / Index / IndexMut / iter / iter_mut / write / read / == / != / Debug histories over all small shapes "
+            "(every valid index, every index out of range in exactly one dimension, sampled indices out of range in several), "
+            "shapes whose element count overflows usize, and tensors obtained by clone / clone_from / read; Coq proves model = "
+            "implementation and implementation |= row-major specification on every case; a python-oracle search adds extents "
+            "up to 65537 and texts beyond the 64 KiB io buffers.",
+    "level_note": "Trusted: Coq kernel + vm_compute; the Rust executor (incl. its differential consistency checks), the Python "
+                  "case printer and lexer; usize = 64 bit; element rendering/parsing abstracted to tokens (C08/C09); theorems "
+                  "are about the model, the correspondence is exhaustive only for the listed small shapes.",
     "technique": "Coq proof over Gallina model + vm_compute correspondence batches against the Rust crate",
 }
